@@ -68,10 +68,17 @@ func mkGraph(r *lib.RNG, twoRefs, twoDeps, blockField, twoSrc bool, rstart, dsta
 func run(cfg lib.Cfg) error {
 	out := lib.NewOut("C05", cfg.Out, ts.Header(5), "run", 3)
 	out.Rule = "non-trivial = a dependent recorded at least two positions, made at least one successful and one unsuccessful reference lookup, and at least once had to wait for a referenced integration"
+	reorgMode := false // reorg histories: the table is compared with the final chain at quiescence only
 	judge := func(sc *ts.Scenario, kind string, quiescent bool, neverStarted []int) {
+		reorg := reorgMode
 		ts.Judge(out, sc, kind, func(r *ts.Run) []string {
 			msgs := append(r.DepOracle(), r.InvOracle()...)
-			msgs = append(msgs, r.GrowthOracle(quiescent)...)
+			switch {
+			case !reorg:
+				msgs = append(msgs, r.GrowthOracle(quiescent)...)
+			case quiescent:
+				msgs = append(msgs, r.ReorgOracle(r.Forks)...)
+			}
 			return msgs
 		}, func(r *ts.Run) bool {
 			pos, hit, miss, waited := 0, false, false, false
@@ -144,7 +151,99 @@ func run(cfg lib.Cfg) error {
 		}
 		judge(sc, "corpus-two-sources", false, nil)
 	}
-	n := 45
+	// reorg histories with statement-level interleaving: a dependent detects a reorg in its
+	// step and unwinds; the referenced integration commits ITS unwind before the dependent's
+	// next loop iteration reads the dependency position again (read committed: visible)
+	reorgMode = true
+	for i, c := range []struct{ batch, rsteps, dsteps, fork, newLen int }{
+		{2, 6, 5, 10, 5}, // R at 12, D at 10, blocks >= 10 replaced; R's unwind commits at 8
+		{2, 6, 6, 9, 7},  // both at 12; fork 9
+		{3, 4, 3, 8, 8},  // R at 12, D at 9; fork 8
+		{1, 7, 6, 6, 6},  // batch 1: R at 7, D at 6; fork 6
+	} {
+		g := graph{}
+		g.igs = []ts.IGSpec{
+			{Name: "a-dep", Shape: "dep", Table: "d1", Ref: "r-one", RefLo: 1, Hdr: true, Sources: []ts.SrcRef{{Name: "main", Start: 1}}},
+			{Name: "r-one", Shape: "created", Table: "r1", Hdr: true, Sources: []ts.SrcRef{{Name: "main", Start: 1}}},
+		}
+		sc := mk(fmt.Sprintf("corpus-reference-unwinds-between-retries-%d", i), g, 12, c.batch, 1, uint64(53+i))
+		sc.Gen.ForkIsolated = true
+		for k := 0; k < c.rsteps; k++ {
+			sc.Acts = append(sc.Acts, ts.Act{Do: "step", Tid: 2})
+		}
+		for k := 0; k < c.dsteps; k++ {
+			sc.Acts = append(sc.Acts, ts.Act{Do: "step", Tid: 1})
+		}
+		sc.Acts = append(sc.Acts,
+			ts.Act{Do: "reorg", Fork: uint64(c.fork), Len: c.newLen},
+			ts.Act{Do: "advuntil", Tid: 1, Call: "DelRows"}, // D has unwound once; its next QLatest is held at the gate
+			ts.Act{Do: "advuntil", Tid: 2, Call: "Commit"},  // R's unwind is committed
+			ts.Act{Do: "drain"})
+		for k := 0; k < 12/c.batch+6; k++ {
+			sc.Acts = append(sc.Acts, ts.Act{Do: "step", Tid: 2}, ts.Act{Do: "step", Tid: 1})
+		}
+		judge(sc, "corpus-reference-unwinds-between-retries", true, nil)
+	}
+	nre := 10
+	if cfg.Thorough() {
+		nre = 500
+	}
+	for i := 0; i < nre; i++ {
+		twoRefs := r.Intn(3) == 0
+		g := graph{}
+		d := ts.IGSpec{Name: "a-dep", Shape: "dep", Table: "d1", Ref: "r-one", RefLo: 1, Hdr: true, Sources: []ts.SrcRef{{Name: "main", Start: uint64(r.Range(1, 3))}}}
+		if twoRefs {
+			d.Ref2 = "r-two"
+		}
+		g.igs = append(g.igs, d, ts.IGSpec{Name: "r-one", Shape: "created", Table: "r1", Hdr: true, Sources: []ts.SrcRef{{Name: "main", Start: 1}}})
+		if twoRefs {
+			g.igs = append(g.igs, ts.IGSpec{Name: "r-two", Shape: "created", Table: "r2", Hdr: true, Sources: []ts.SrcRef{{Name: "main", Start: 1}}})
+		}
+		nt := len(g.igs)
+		batch := r.Range(1, 3)
+		head := r.Range(6, 10)
+		sc := mk(fmt.Sprintf("deps-reorg-%d", i), g, head, batch, r.Range(1, 2), r.U64()%1_000_000)
+		sc.Gen.ForkIsolated = true
+		h, top := head, head
+		for k := 0; k < 2+r.Intn(2); k++ {
+			// everybody makes progress, references first more often than not
+			for j := r.Range(4, 10); j > 0; j-- {
+				t := 2 + r.Intn(nt-1)
+				if r.Intn(3) == 0 {
+					t = 1
+				}
+				sc.Acts = append(sc.Acts, ts.Act{Do: "step", Tid: t})
+			}
+			f := r.Range(max(1, h-2*batch-1), h)
+			nl := max(1, h-f+1+r.Range(0, 3))
+			sc.Acts = append(sc.Acts, ts.Act{Do: "reorg", Fork: uint64(f), Len: nl})
+			h = f - 1 + nl
+			top = max(top, h)
+			// the unwinds of dependent and references interleave statement by statement
+			for j := r.Range(10, 40); j > 0; j-- {
+				switch r.Intn(6) {
+				case 0:
+					sc.Acts = append(sc.Acts, ts.Act{Do: "advuntil", Tid: 1, Call: "DelRows"})
+				case 1:
+					sc.Acts = append(sc.Acts, ts.Act{Do: "advuntil", Tid: 2 + r.Intn(nt-1), Call: "Commit"})
+				default:
+					sc.Acts = append(sc.Acts, ts.Act{Do: "adv", Tid: 1 + r.Intn(nt)})
+				}
+			}
+			sc.Acts = append(sc.Acts, ts.Act{Do: "drain"})
+		}
+		gr := max(2, top-h+2)
+		sc.Acts = append(sc.Acts, ts.Act{Do: "grow", K: gr})
+		h += gr
+		for k := 0; k < 2*((h+batch-1)/batch+3); k++ {
+			for t := nt; t >= 1; t-- {
+				sc.Acts = append(sc.Acts, ts.Act{Do: "step", Tid: t})
+			}
+		}
+		judge(sc, "reorg-interleaved", true, nil)
+	}
+	reorgMode = false
+	n := 34
 	if cfg.Thorough() {
 		n = 700
 	}
